@@ -138,6 +138,14 @@ func genC13(tier string, r *rng) {
 						}
 					}
 					seq = append(seq, "fl")
+					// the writer handed to the next user (Reset / ResetOp): Reset detaches the message state,
+					// so messages written without SetExtensions are plain
+					switch r.intn(5) {
+					case 0:
+						seq = append(seq, fmt.Sprintf("rs:%s:%d", []string{"S", "C"}[r.intn(2)], 1+r.intn(2)), "w:"+hx(r.bytes(1+r.intn(2*av))), "fl")
+					case 1:
+						seq = append(seq, fmt.Sprintf("ro:%d", 1+r.intn(2)))
+					}
 				}
 				writerSeq(sd, 1+r.intn(2), ctor, []string{"c0", "c1"}[r.intn(2)], "-", raw+i, seq)
 			}
